@@ -122,3 +122,47 @@ pub fn sha256(data: &[u8]) -> [u8; 32] {
     }
     out
 }
+
+/// Sets the listed free bits of `msg` (bit index = byte * 8 + bit) so that
+/// `crc32(msg)` equals `target`. CRC32 is affine in the message for a fixed
+/// length, so this is linear algebra over GF(2): false if the free bits do not
+/// span the needed difference. At most 64 free bits.
+pub fn forge_crc32(msg: &mut [u8], free: &[usize], target: u32) -> bool {
+    assert!(free.len() <= 64);
+    for &b in free {
+        msg[b / 8] &= !(1u8 << (b % 8));
+    }
+    let base = crc32(msg);
+    let mut basis: [(u32, u64); 32] = [(0, 0); 32];
+    for (i, &b) in free.iter().enumerate() {
+        msg[b / 8] ^= 1u8 << (b % 8);
+        let mut v = crc32(msg) ^ base;
+        msg[b / 8] ^= 1u8 << (b % 8);
+        let mut m = 1u64 << i;
+        while v != 0 {
+            let p = 31 - v.leading_zeros() as usize;
+            if basis[p].0 == 0 {
+                basis[p] = (v, m);
+                break;
+            }
+            v ^= basis[p].0;
+            m ^= basis[p].1;
+        }
+    }
+    let mut need = base ^ target;
+    let mut pick = 0u64;
+    while need != 0 {
+        let p = 31 - need.leading_zeros() as usize;
+        if basis[p].0 == 0 {
+            return false;
+        }
+        need ^= basis[p].0;
+        pick ^= basis[p].1;
+    }
+    for (i, &b) in free.iter().enumerate() {
+        if pick >> i & 1 == 1 {
+            msg[b / 8] |= 1u8 << (b % 8);
+        }
+    }
+    crc32(msg) == target
+}
